@@ -263,6 +263,18 @@ class ServerSet(object):
 
     # Data changed will notify node on creation / deletion via
     DataWatch(self._zk, self._zk_path, self._data_changed)
+    self._watch_existence()
+
+  def _watch_existence(self, event=None):
+    """The DataWatch only reports a change of the node's version: a path that is
+    re-created and deleted again between two of its reads looks unchanged to it
+    (None -> None) and nothing is reported.  A plain one-shot exists watch,
+    re-armed on every event, sees every deletion.
+    """
+    if not self._running:
+      return
+    stat = self._zk.exists(self._zk_path, self._watch_existence)
+    self._data_changed(None, stat)
 
   def _data_changed(self, data, stat):
     # stat == None -> the node was deleted (or doesnt exist)
